@@ -129,6 +129,10 @@ pub fn spec_for(seed: u64, index: u64) -> sysgen::SysSpec {
             }
         }
     }
+    // array-typed inputs / outputs / named array nodes
+    if index % 6 == 4 {
+        sysgen::add_array_io(&mut spec, index / 6);
+    }
     spec
 }
 
